@@ -96,7 +96,7 @@ static inline int num_eq_tol(double a, double b) { double d = a - b; if (d < 0) 
 #else
 #define NUM_EQ(a, b) ((a) == (b))
 #endif
-#define NUM_TO_I64(a) ((int64_t)(a))
+#define NUM_TO_I64(a) ((int64_t)((a) < 0 ? (a) - 0.5 : (a) + 0.5))   /* nearest integer: real cos(pi/2) is 6e-17, not 0 */
 #endif
 
 #endif
